@@ -706,6 +706,18 @@ func (h *runner) roundtrips(rounds int) {
 						replay{Op: 2, Input: hex.EncodeToString(o.rest), Chunking: &ckb})
 				}
 			}
+			// a head that is the last thing on the stream (io.EOF may arrive together with its last bytes)
+			for j, ck := range []chunking{{Ending: 1}, {Unit: 1, Ending: 1}, {Unit: 16, Ending: 1}, {Ending: 0}} {
+				o := h.readCase(0, head, ck, fmt.Sprintf("request %T alone", rh), round == 0 && j < 2)
+				if o.tag != tagOk || !h.sameHeader(o.header, rh) || len(o.rest) != 0 {
+					res.Fail("roundtrip-request", fmt.Sprintf("%T written alone, read back tag=%d %T chunking=%+v %s", rh, o.tag, o.header, ck, firstLine(o.msg)), replay{Op: 0, Input: hex.EncodeToString(head), Chunking: &ck})
+				}
+				op := 1 + j%2
+				o = h.readCase(op, rhead, ck, fmt.Sprintf("response %T alone", rs), round == 0 && j < 2)
+				if o.tag != tagOk || !h.sameHeader(o.header, rs) || len(o.rest) != 0 {
+					res.Fail("roundtrip-response", fmt.Sprintf("%T written alone, read back (op %d) tag=%d %T chunking=%+v %s", rs, op, o.tag, o.header, ck, firstLine(o.msg)), replay{Op: op, Input: hex.EncodeToString(rhead), Chunking: &ck})
+				}
+			}
 			// truncations of the heads: every strict prefix is rejected; of a fixed body: reported by the body reader
 			if round == 0 {
 				for c := 0; c < len(head); c++ {
